@@ -286,24 +286,24 @@ def rule_atomic(ctx):
                         break
                     # tree invariant: the parent of a node that get_node found (non-None on this path) is a directory
                     found = set()
-                    tt = t
-                    if isinstance(tt, ast.Compare) and len(tt.ops) == 1 and isinstance(tt.comparators[0], ast.Constant) and tt.comparators[0].value is None and isinstance(tt.left, ast.Name):
-                        if (isinstance(tt.ops[0], ast.Is) and not pol) or (isinstance(tt.ops[0], ast.IsNot) and pol):
-                            found.add(tt.left.id)
-                    if isinstance(tt, ast.Compare) and len(tt.ops) == 1 and isinstance(tt.ops[0], ast.In) and isinstance(tt.left, ast.Constant) and tt.left.value is None \
-                            and isinstance(tt.comparators[0], (ast.Tuple, ast.List)) and not pol:
-                        found |= {x.id for x in tt.comparators[0].elts if isinstance(x, ast.Name)}
+                    atoms = flatten_test(p, t, pol, fn)
+                    for tt, tp in atoms:
+                        if isinstance(tt, ast.Compare) and len(tt.ops) == 1 and isinstance(tt.comparators[0], ast.Constant) and tt.comparators[0].value is None and isinstance(tt.left, ast.Name):
+                            if (isinstance(tt.ops[0], ast.Is) and not tp) or (isinstance(tt.ops[0], ast.IsNot) and tp):
+                                found.add(tt.left.id)
+                        if isinstance(tt, ast.Compare) and len(tt.ops) == 1 and isinstance(tt.ops[0], ast.In) and isinstance(tt.left, ast.Constant) and tt.left.value is None \
+                                and isinstance(tt.comparators[0], (ast.Tuple, ast.List)) and not tp:
+                            found |= {x.id for x in tt.comparators[0].elts if isinstance(x, ast.Name)}
                     found_all |= found
                     for pv, child in parent_of.items():
                         if node_of.get(child) in found_all:
                             known.add(pv)
-                    subs = t.values if isinstance(t, ast.BoolOp) and ((isinstance(t.op, ast.Or) and not pol) or (isinstance(t.op, ast.And) and pol)) else [t]
-                    for sub in subs:
+                    for sub, sp in atoms:
                         if isinstance(sub, ast.Compare) and src(sub.left).endswith(".type") and isinstance(sub.comparators[0], ast.Constant) and sub.comparators[0].value == "dir":
-                            is_dir = (isinstance(sub.ops[0], ast.Eq) and pol) or (isinstance(sub.ops[0], ast.NotEq) and not pol)
+                            is_dir = (isinstance(sub.ops[0], ast.Eq) and sp) or (isinstance(sub.ops[0], ast.NotEq) and not sp)
                             if is_dir:
                                 known.add(src(sub.left)[:-5])
-                        if isinstance(sub, ast.Call) and isinstance(sub.func, ast.Name) and sub.func.id == "isinstance" and "list" in src(sub) and pol:
+                        if isinstance(sub, ast.Call) and isinstance(sub.func, ast.Name) and sub.func.id == "isinstance" and "list" in src(sub) and sp:
                             known.add(src(sub.args[0]))
                     continue
                 if e[0] not in ("stmt",):
